@@ -73,7 +73,7 @@ ProjMatch ==
     /\ ~R'.panicked
 
 ---------------------------------------------------------------------------
-WillOf(w) == IF w = "null" THEN NOMSG ELSE Msg(w.m, w.topic, w.q, w.retain, FALSE)
+WillOf(w) == IF w.m = 0 THEN NOMSG ELSE Msg(w.m, w.topic, w.q, w.retain, FALSE)
 
 TConnect ==
     /\ IsEvent("connect")
@@ -152,8 +152,10 @@ IsReset == l <= Len(Rec) /\ E.ev = "reset"
 OnlyOwnRemovalT == [][IsReset \/ OnlyOwnRemovalStep]_tvars
 AckClosesOnlyThatT == [][IsReset \/ AckClosesOnlyThatStep]_tvars
 NoCrossGenerationT == [][IsReset \/ NoCrossGenerationStep({"DeviceData", "Disconnect", "Ready", "PublishWill"})]_tvars
-\* known finding (C14): a late Event::Disconnect of an ended connection removes the connection that reuses its id
-NoCrossGenerationButDisconnectT == [][IsReset \/ NoCrossGenerationStep({"DeviceData", "Ready", "PublishWill"})]_tvars
+\* known finding (C14): a late Event::Disconnect of an ended connection removes the connection that reuses its id.
+\* (A late DeviceData only makes the router look into the new connection's own buffer earlier: whatever then happens is
+\* caused by that connection's own packets, so DeviceData is not part of the demand.)
+NoCrossGenerationButDisconnectT == [][IsReset \/ NoCrossGenerationStep({"Ready", "PublishWill"})]_tvars
 
 Progress == TLCSet(1, IF TLCGet(1) < l THEN l ELSE TLCGet(1))
 ASSUME TLCSet(1, 0)
